@@ -6,7 +6,7 @@ func init() { streams["astfacts"] = streamAstFacts }
 
 // streamAstFacts regenerates lean/Generated/LockFacts.lean from /repo's sources (C10).
 func streamAstFacts(cfg *Config, res *Result) error {
-	src, err := genLockFacts("/repo")
+	src, err := genLockFacts(cfg.Repo)
 	if err != nil {
 		return err
 	}
